@@ -134,11 +134,9 @@ func (b *httpBackend) handle(c net.Conn, bc *backConn) {
 		c.SetReadDeadline(time.Now().Add(20 * time.Second))
 		req, err := http.ReadRequest(br)
 		if err != nil {
-			if err != io.EOF {
-				b.mu.Lock()
-				bc.garbage = true
-				b.mu.Unlock()
-			} else if cr.n-br.Buffered() != start {
+			// garbage = bytes arrived that are not a request; a connection that just ends (EOF, or
+			// a reset because the proxy closed while a reply was still unread) is not
+			if cr.n != start {
 				b.mu.Lock()
 				bc.garbage = true
 				b.mu.Unlock()
